@@ -287,7 +287,7 @@ func checkC15(c *core.Ctx) {
 		if ap, _ := theory.ParseNote(asStr(m["applied"])); ap.Acc != 0 || mustInt(m["octave_diff"]) != 0 {
 			c.Nontrivial(sig)
 		}
-		if i%331 == 0 {
+		if c.WantSample() {
 			c.Sample(map[string]any{"cmd": strings.Join(args, " "), "applied": m["applied"], "octave_diff": m["octave_diff"], "semitone": m["semitone"]})
 		}
 	})
